@@ -1,5 +1,7 @@
 use std::fs::DirBuilder;
 use std::io::prelude::*;
+#[cfg(feature = "mmap")]
+use std::io::SeekFrom;
 use std::path::{Path, PathBuf};
 #[cfg(any(feature = "async-std", feature = "tokio"))]
 use std::pin::Pin;
@@ -32,16 +34,14 @@ impl MmapMut {
     fn flush_async(&self) -> std::io::Result<()> {
         panic!()
     }
-
-    fn copy_from_slice(&self, _: &[u8]) {
-        panic!()
-    }
 }
 
 pub struct Writer {
     cache: PathBuf,
     builder: IntegrityOpts,
     mmap: Option<MmapMut>,
+    // Number of bytes stored through `mmap` so far.
+    mmap_pos: usize,
     tmpfile: NamedTempFile,
 }
 
@@ -72,10 +72,17 @@ impl Writer {
             builder: IntegrityOpts::new().algorithm(algo),
             tmpfile,
             mmap,
+            mmap_pos: 0,
         })
     }
 
-    pub fn close(self) -> Result<Integrity> {
+    pub fn close(mut self) -> Result<Integrity> {
+        finish_mmap(&mut self.mmap, self.mmap_pos, &self.tmpfile).with_context(|| {
+            format!(
+                "Failed to finalize temp file at {}",
+                self.tmpfile.path().display()
+            )
+        })?;
         let sri = self.builder.result();
         let cpath = path::content_path(&self.cache, &sri);
         DirBuilder::new()
@@ -115,8 +122,7 @@ impl Writer {
 impl Write for Writer {
     fn write(&mut self, buf: &[u8]) -> std::io::Result<usize> {
         self.builder.input(buf);
-        if let Some(mmap) = &mut self.mmap {
-            mmap.copy_from_slice(buf);
+        if write_mmap(&mut self.mmap, &mut self.mmap_pos, &mut self.tmpfile, buf)? {
             Ok(buf.len())
         } else {
             self.tmpfile.write(buf)
@@ -143,6 +149,8 @@ struct Inner {
     builder: IntegrityOpts,
     tmpfile: NamedTempFile,
     mmap: Option<MmapMut>,
+    // Number of bytes stored through `mmap` so far.
+    mmap_pos: usize,
     buf: Vec<u8>,
     last_op: Option<Operation>,
 }
@@ -177,6 +185,7 @@ impl AsyncWriter {
             cache: cache_path,
             builder: IntegrityOpts::new().algorithm(algo),
             mmap,
+            mmap_pos: 0,
             tmpfile,
             buf: vec![],
             last_op: None,
@@ -197,20 +206,31 @@ impl AsyncWriter {
                         Some(inner) => {
                             let (s, r) = futures::channel::oneshot::channel();
                             let tmpfile = inner.tmpfile;
+                            let mut mmap = inner.mmap;
+                            let mmap_pos = inner.mmap_pos;
                             let sri = inner.builder.result();
                             let cpath = path::content_path(&inner.cache, &sri);
 
                             // Start the operation asynchronously.
-                            *state = State::Busy(crate::async_lib::spawn_blocking(|| {
-                                let res = std::fs::DirBuilder::new()
-                                    .recursive(true)
-                                    // Safe unwrap. cpath always has multiple segments
-                                    .create(cpath.parent().unwrap())
+                            *state = State::Busy(crate::async_lib::spawn_blocking(move || {
+                                let res = finish_mmap(&mut mmap, mmap_pos, &tmpfile)
                                     .with_context(|| {
                                         format!(
-                                            "building directory {} failed",
-                                            cpath.parent().unwrap().display()
+                                            "finalizing temp file {} failed",
+                                            tmpfile.path().display()
                                         )
+                                    })
+                                    .and_then(|_| {
+                                        std::fs::DirBuilder::new()
+                                            .recursive(true)
+                                            // Safe unwrap. cpath always has multiple segments
+                                            .create(cpath.parent().unwrap())
+                                            .with_context(|| {
+                                                format!(
+                                                    "building directory {} failed",
+                                                    cpath.parent().unwrap().display()
+                                                )
+                                            })
                                     });
                                 if res.is_err() {
                                     let _ = s.send(res.map(|_| sri));
@@ -307,15 +327,18 @@ impl AsyncWrite for AsyncWriter {
                         // Start the operation asynchronously.
                         *state = State::Busy(crate::async_lib::spawn_blocking(|| {
                             inner.builder.input(&inner.buf);
-                            if let Some(mmap) = &mut inner.mmap {
-                                mmap.copy_from_slice(&inner.buf);
-                                inner.last_op = Some(Operation::Write(Ok(inner.buf.len())));
-                                State::Idle(Some(inner))
-                            } else {
-                                let res = inner.tmpfile.write(&inner.buf);
-                                inner.last_op = Some(Operation::Write(res));
-                                State::Idle(Some(inner))
-                            }
+                            let res = match write_mmap(
+                                &mut inner.mmap,
+                                &mut inner.mmap_pos,
+                                &mut inner.tmpfile,
+                                &inner.buf,
+                            ) {
+                                Ok(true) => Ok(inner.buf.len()),
+                                Ok(false) => inner.tmpfile.write(&inner.buf),
+                                Err(e) => Err(e),
+                            };
+                            inner.last_op = Some(Operation::Write(res));
+                            State::Idle(Some(inner))
                         }));
                     }
                 }
@@ -421,6 +444,65 @@ impl AsyncWriter {
             }
         }
     }
+}
+
+/// Stores `buf` at the current position of the mapping and returns `true`. When
+/// there is no mapping, or `buf` does not fit into what is left of it (the
+/// caller supplies more data than the declared size), the mapping is given up,
+/// the file cursor is placed after the bytes stored so far and `false` is
+/// returned, so the caller continues with plain file writes.
+#[cfg(feature = "mmap")]
+fn write_mmap(
+    mmap: &mut Option<MmapMut>,
+    pos: &mut usize,
+    tmpfile: &mut NamedTempFile,
+    buf: &[u8],
+) -> std::io::Result<bool> {
+    if let Some(map) = mmap {
+        if buf.len() <= map.len() - *pos {
+            map[*pos..*pos + buf.len()].copy_from_slice(buf);
+            *pos += buf.len();
+            return Ok(true);
+        }
+        map.flush()?;
+        *mmap = None;
+        tmpfile.as_file_mut().seek(SeekFrom::Start(*pos as u64))?;
+    }
+    Ok(false)
+}
+
+#[cfg(not(feature = "mmap"))]
+fn write_mmap(
+    _: &mut Option<MmapMut>,
+    _: &mut usize,
+    _: &mut NamedTempFile,
+    _: &[u8],
+) -> std::io::Result<bool> {
+    Ok(false)
+}
+
+/// Releases the mapping before the temp file is persisted. If fewer bytes than
+/// the preallocated length were stored, the file is cut back to what was
+/// actually written, so that its contents match the computed integrity.
+#[cfg(feature = "mmap")]
+fn finish_mmap(
+    mmap: &mut Option<MmapMut>,
+    pos: usize,
+    tmpfile: &NamedTempFile,
+) -> std::io::Result<()> {
+    if let Some(map) = mmap.take() {
+        let len = map.len();
+        drop(map);
+        if pos < len {
+            tmpfile.as_file().set_len(pos as u64)?;
+        }
+    }
+    Ok(())
+}
+
+#[cfg(not(feature = "mmap"))]
+fn finish_mmap(_: &mut Option<MmapMut>, _: usize, _: &NamedTempFile) -> std::io::Result<()> {
+    Ok(())
 }
 
 #[cfg(feature = "mmap")]
